@@ -88,8 +88,25 @@ PostZ(f, A, O, r, x) ==
      [] f = "mpz_clear" -> TRUE
      [] f = "mpz_realloc2" -> /\ O[1].al * 64 >= I(A[2]) /\ O[1].al >= 1
                               /\ O[1].v = (IF ZBitLen(A[1]) <= O[1].al * 64 THEN A[1] ELSE "0")
+     [] f = "mpz_realloc" ->      \* _mpz_realloc: exactly max(n,1) limbs; the value is kept if it fits, otherwise 0
+           /\ O[1].al = (IF I(A[2]) < 1 THEN 1 ELSE I(A[2]))
+           /\ O[1].v = (IF ZLimbCount(A[1]) <= O[1].al THEN A[1] ELSE "0")
+     [] f = "mpz_inits" -> \A k \in 1..3 : O[k].v = "0"
+     [] f = "mpz_clears" -> TRUE
+        \* ---- limb-level access (the documented protocols, each run as one step by the harness)
+     [] f = "mpz_getlimbn" -> r = ZLowBits(ZShr(ZAbs(A[1]), 64 * I(A[2])), 64)
+     [] f = "mpz_limbs_read" -> r = ZLowBits(ZShr(ZAbs(A[1]), 64 * I(A[2])), 64)          \* limb k < mpz_size of the array returned
+     [] f = "mpz_limbs_write_finish" ->     \* limbs_write(n + extra), store |src| and extra zero limbs, limbs_finish(+-(n + extra))
+           /\ O[1].v = (IF A[4] # 0 THEN ZNeg(ZAbs(A[2])) ELSE ZAbs(A[2]))
+           /\ O[1].al >= ZLimbCount(A[2]) + I(A[3])
+     [] f = "mpz_limbs_modify_finish" ->    \* limbs_modify(n + extra) keeps the n old limbs; top new limb := u; limbs_finish
+           LET n == ZLimbCount(A[1])  ex == I(A[2])
+               mag == IF ex = 0 THEN ZAbs(A[1]) ELSE ZAdd(ZAbs(A[1]), ZShl(A[3], 64 * (n + ex - 1)))
+           IN  /\ O[1].v = (IF ZIsNeg(A[1]) THEN ZNeg(mag) ELSE mag)
+               /\ O[1].al >= n + ex
+     [] f = "mpz_roinit_n_add" -> O[1].v = ZAdd(A[2], A[3])      \* a read-only integer made from a limb array with extra high zero limbs, used as an operand
      [] f \in {"mpz_init_set", "mpz_set"} -> O[1].v = A[2]
-     [] f \in {"mpz_init_set_ui", "mpz_set_ui", "mpz_set_ux", "mpz_init_set_si", "mpz_set_si", "mpz_set_sx"} -> O[1].v = A[2]
+     [] f \in {"mpz_init_set_ui", "mpz_set_ui", "mpz_set_ux", "mpz_init_set_si", "mpz_set_si", "mpz_set_sx", "mpz_init_set_ux", "mpz_init_set_sx"} -> O[1].v = A[2]
      [] f \in {"mpz_init_set_d", "mpz_set_d"} -> O[1].v = DTruncZ(A[2])
      [] f = "mpz_swap" -> O[1].v = A[2] /\ O[2].v = A[1]
      [] f = "mpz_set_q" -> O[1].v = ZTDivQ(A[2][1], A[2][2])
@@ -199,7 +216,7 @@ PostZ(f, A, O, r, x) ==
      [] f = "mpz_probab_prime_p" -> PrimeContract(A[1], r, A[2])
      [] f = "mpz_probable_prime_p" -> PrimeContract(A[1], r, A[3])
      [] f = "mpz_likely_prime_p" -> PrimeContract(A[1], r, 0)
-     [] f = "mpz_miller_rabin" -> PrimeContract(A[1], r, 0)
+     [] f \in {"mpz_miller_rabin", "mpz_millerrabin"} -> PrimeContract(A[1], r, 0)
      [] f \in {"mpz_nextprime", "mpz_next_prime_candidate"} -> ZLt(A[2], O[1].v) /\ ZLe(O[1].v, ZNextPrime(A[2]))
         \* ---- bits (infinite two's complement)
      [] f = "mpz_and" -> O[1].v = ZAnd(A[2], A[3])
